@@ -8,6 +8,7 @@
 package c15
 
 import (
+	"context"
 	"database/sql"
 	"errors"
 	"fmt"
@@ -585,6 +586,100 @@ func (k *checker) readPaths(want []pred.Row, matching []pred.Row) {
 	}
 }
 
+// sortKeys sorts by keys such as "a desc", "s", "mark", "id desc" (left to right).
+func sortKeys(rows []pred.Row, keys []string) []pred.Row {
+	out := append([]pred.Row(nil), rows...)
+	sort.SliceStable(out, func(i, j int) bool {
+		for _, k := range keys {
+			f := strings.Fields(k)
+			c := 0
+			switch f[0] {
+			case "a":
+				c = cmpInt(out[i].A, out[j].A)
+			case "s":
+				c = strings.Compare(out[i].S, out[j].S)
+			case "id":
+				c = cmpInt(out[i].ID, out[j].ID)
+			}
+			if len(f) > 1 {
+				c = -c
+			}
+			if c != 0 {
+				return c < 0
+			}
+		}
+		return false
+	})
+	return out
+}
+
+func cmpInt(a, b int64) int {
+	switch {
+	case a < b:
+		return -1
+	case a > b:
+		return 1
+	}
+	return 0
+}
+
+// sharedBase: the read paths of one chain as an application writes them - one reusable base, handles
+// derived from it first, the base used again, the derived handles run afterwards. 0..3 Order calls on
+// the base (none of them on the key) leave the clause's slice with or without spare capacity.
+func (k *checker) sharedBase(matching []pred.Row) {
+	r := k.c.R
+	root := H.DB.Session(&gorm.Session{})
+	cc := k.cc
+	cc.order = ""
+	ords := []string{"a desc", "s", "mark"}[:r.Intn(4)]
+	db := cc.build(root)
+	for _, o := range ords {
+		db = db.Order(o)
+	}
+	var base *gorm.DB
+	if r.Bool() {
+		base = db.Session(&gorm.Session{})
+	} else {
+		base = db.WithContext(context.Background())
+	}
+	l, off := fold(cc.calls)
+	ref := func(last string) []pred.Row {
+		return window(sortKeys(matching, append(append([]string(nil), ords...), last)), l, off)
+	}
+	what := fmt.Sprintf("base := %s%s.Session(..)", cc.desc(), func() string {
+		d := ""
+		for _, o := range ords {
+			d += fmt.Sprintf(".Order(%q)", o)
+		}
+		return d
+	}())
+	hDesc := base.Order("id desc")
+	hAsc := base.Order("id")
+	// the base is used in between (First and Last add their own key order to a copy of the base's)
+	var f, la pred.Row
+	base.First(&f)
+	base.Last(&la)
+	var viaBase []pred.Row
+	if res := base.Order("id").Find(&viaBase); res.Error != nil {
+		k.add("%s; base.Order(\"id\").Find error %v", what, res.Error)
+	} else {
+		k.cmpRows(what+"; base.Order(\"id\").Find", viaBase, ref("id"))
+	}
+	var d, e []pred.Row
+	if res := hDesc.Find(&d); res.Error != nil {
+		k.add("%s; derived handle error %v", what, res.Error)
+	} else {
+		k.cmpRows(what+"; hDesc := base.Order(\"id desc\"); base.First; base.Last; hDesc.Find", d, ref("id desc"))
+	}
+	if res := hAsc.Find(&e); res.Error != nil {
+		k.add("%s; derived handle error %v", what, res.Error)
+	} else {
+		k.cmpRows(what+"; hAsc := base.Order(\"id\"); ...; hAsc.Find", e, ref("id"))
+	}
+	k.c.Inc("shared_base_blocks")
+	k.c.Inc(fmt.Sprintf("shared_base_with_%d_order_calls", len(ords)))
+}
+
 var errBound = errors.New("verif: batch bound exceeded")
 
 // batches runs FindInBatches and checks it against want (rows Find would return, pk order).
@@ -781,6 +876,7 @@ func run(c *core.Ctx) {
 		mt, want := cc.reference(table)
 		k := &checker{c: c, cc: cc, table: table}
 		k.readPaths(want, mt)
+		k.sharedBase(mt)
 		c.Inc("read_path_comparisons")
 		if report(k, "ReadPaths") {
 			continue
@@ -809,7 +905,7 @@ var Engine = &core.Engine{
 	ID:    "C15",
 	Level: "exploration",
 	Rule: "grid: every table size 0..12 (quick) / 0..40 (thorough) x every batch size 1..N+2 x repetitions (first without condition, others with a random C02 chain incl. Or); for each grid point FindInBatches is run for every limit in {none, 0..m+1} x offset in {none, 1..m+1} (m = matching rows) and compared with the reference window; " +
-		"then Find into []T/[]*T/array/[]map, Scan, Rows+ScanRows, Pluck per column, Count, First/Last/Take (struct, pointer, map) are compared with the reference under random order and override/cancel sequences of Limit/Offset; distinct = (size, batch, limit, offset, conditioned, rows delivered) resp. (size, calls, order, units); non-trivial = at least one row delivered",
+		"then Find into []T/[]*T/array/[]map, Scan, Rows+ScanRows, Pluck per column, Count, First/Last/Take (struct, pointer, map) are compared with the reference under random order and override/cancel sequences of Limit/Offset, and once more from one reusable base (0..3 Order calls) whose derived handles are run after the base was used again; distinct = (size, batch, limit, offset, conditioned, rows delivered) resp. (size, calls, order, units); non-trivial = at least one row delivered",
 	Assumptions: []string{
 		"keys have gaps; rows are inserted with raw SQL",
 		"Limit(0) is only used as the sole Limit call (LIMIT 0: Find returns nothing); mixed zero/positive sequences are not covered by the statement's override/cancel sentence and are not generated",
